@@ -35,6 +35,25 @@ var LocalNames = map[token.Pos]string{}
 // from /verif/sa/pinned_params.json; missing entries fall back to the current names.
 var PinnedParams = map[string][]string{}
 
+// sameNames: the two lists hold the same names (in any order): nothing was renamed, and a
+// positional mapping would only mis-assign names when the order changed.
+func sameNames(a []string, b []string) bool {
+	if len(a) != len(b) {
+		return false
+	}
+	m := map[string]int{}
+	for _, x := range a {
+		m[x]++
+	}
+	for _, x := range b {
+		m[x]--
+		if m[x] < 0 {
+			return false
+		}
+	}
+	return true
+}
+
 func pinnedName(fn *ssa.Function, v ssa.Value, free bool) string {
 	if fn == nil {
 		return v.Name()
@@ -42,7 +61,11 @@ func pinnedName(fn *ssa.Function, v ssa.Value, free bool) string {
 	key := FuncName(fn)
 	if free {
 		key += "#free"
-		if names, ok := PinnedParams[key]; ok && len(names) == len(fn.FreeVars) {
+		var cur []string
+		for _, fv := range fn.FreeVars {
+			cur = append(cur, fv.Name())
+		}
+		if names, ok := PinnedParams[key]; ok && len(names) == len(fn.FreeVars) && !sameNames(names, cur) {
 			for i, fv := range fn.FreeVars {
 				if fv == v {
 					return names[i]
@@ -51,7 +74,11 @@ func pinnedName(fn *ssa.Function, v ssa.Value, free bool) string {
 		}
 		return v.Name()
 	}
-	if names, ok := PinnedParams[key]; ok && len(names) == len(fn.Params) {
+	var curp []string
+	for _, p := range fn.Params {
+		curp = append(curp, p.Name())
+	}
+	if names, ok := PinnedParams[key]; ok && len(names) == len(fn.Params) && !sameNames(names, curp) {
 		for i, p := range fn.Params {
 			if p == v {
 				return names[i]
@@ -83,7 +110,7 @@ func LocalName(fn *ssa.Function, name string) string {
 	}
 	key := FuncName(fn)
 	cur, pin := CurrentLocals[key], PinnedLocals[key]
-	if len(cur) == 0 || len(cur) != len(pin) {
+	if len(cur) == 0 || len(cur) != len(pin) || sameNames(cur, pin) {
 		return name
 	}
 	for i, n := range cur {
@@ -222,6 +249,11 @@ func term(v ssa.Value, depth int, onstack map[ssa.Value]bool) string {
 	case *ssa.BinOp:
 		return "(" + term(x.X, depth+1, onstack) + " " + x.Op.String() + " " + term(x.Y, depth+1, onstack) + ")"
 	case *ssa.Phi:
+		if a := ThreadedValue(x); a != ssa.Value(x) && !onstack[x] {
+			onstack[x] = true
+			defer delete(onstack, x)
+			return term(a, depth+1, onstack)
+		}
 		if onstack[x] || depth > 6 || loopCarried(x) {
 			// loop-carried values are rendered by name so that the term does not depend on
 			// where the cycle is entered
